@@ -215,6 +215,22 @@ func expand(c *vrt.Ctx, f *family, st bstate, ops []op, universe, nodeIDs, lineI
 	if churn {
 		nvar = 2
 	}
+	// Once per state (and once more behind the churn detour): the caller
+	// modifies every slice the accessors hand out, fresh and after a partial
+	// iteration; the container must keep answering like the model.
+	for v := 0; v < 2*nvar; v++ {
+		where := "exhaustive-bfs, caller modifies handed-out slices"
+		r := newRunner(c, f, universe, where)
+		r.replay(st.hist)
+		if v >= 2 {
+			r.replay(churnPrelude(r.m, int32(1000+len(st.hist))))
+		}
+		if len(r.hist) == 0 && !f.dense {
+			break
+		}
+		r.scrambleCheck(nil, v%2 == 1)
+		queries.Add(r.queries)
+	}
 	for vi := 0; vi < len(ops)*nvar; vi++ {
 		tmpl, viaChurn := ops[vi/nvar], vi%nvar == 1
 		where := "exhaustive-bfs"
@@ -246,7 +262,12 @@ func expand(c *vrt.Ctx, f *family, st bstate, ops []op, universe, nodeIDs, lineI
 		if deterministic {
 			sw.dig = dig
 		}
+		// Slices obtained before the operation are the caller's copies.
+		hs := r.handOutAll(r.universe, true, vi%3 == 0)
 		alive := r.step(o, sw)
+		if alive {
+			alive = r.checkHeld(hs)
+		}
 		if alive && f.multi {
 			// NewLine for every pair: fresh ID, graph unchanged.
 			sw.dig = nil
